@@ -13,7 +13,7 @@ from props.C06 import coq_curve, gen_curve
 
 class P(Prop):
     ID = "C05"
-    THEOREMS = ["C05_no_full_pti", "C05_full_pti", "C05_load_sharing_step", "C05_both_within_eps", "C05_loss",
+    THEOREMS = ["C05_no_full_pti", "C05_full_pti", "C05_full_step", "C05_load_sharing_step", "C05_both_within_eps", "C05_loss",
                 "C05_combined_balance_computes_the_step_formulas"]
     MAKE_TARGETS = ["theories/Props/C05.vo", "theories/Check/Check_C04.vo"]
     CHECK_REQUIRE = ("From Coq Require Import QArith List Bool.\nFrom Feems Require Import Base.Num Base.Pchip Model.Component "
@@ -59,8 +59,8 @@ class P(Prop):
                                  "e0": [Fraction(rng.randint(-28, 28), 32) * rated_pti for _ in range(n)]})
             # one machine that SHARES THE LOAD with the sources on some steps (PTO in equal-sharing mode, flag 0) and follows its
             # set-point on the others; full-PTI steps are set-point steps
-            if nm == 1 and rng.random() < 0.35:
-                m0 = machines[0]
+            if rng.random() < 0.35:
+                m0 = rng.choice(machines)         # with two machines the other one follows its set-points / drives its shaft alone
                 lsm = [1 if f else rng.choice([0, 0, 1]) for f in m0["full"]]
                 if all(x == 1 for x in lsm):
                     lsm[rng.randrange(n)] = 0 if not all(m0["full"]) else 1
@@ -195,20 +195,31 @@ class P(Prop):
             net = core.coq_q(cons)
             bal = [m for m in inp["machines"] if m.get("lsm") and m["lsm"][t] == 0]      # sharing the load at this step
             cap = sum(on_rated) + sum(Fraction(defs[m["name"]]["rated"]) for m in bal)
-            for j, (m, o) in enumerate(zip(inp["machines"], obs["machines"])):
-                e0 = core.coq_q(m['e0'][t]) if m not in bal else core.coq_q(-Fraction(defs[m['name']]['rated']) * Fraction(cons) / cap)
-                hin = (f"{{| h_e0 := {e0}; h_load := {core.coq_q(m['load'][t])}; "
-                       f"h_full := {core.coq_bool(m['full'][t])}; h_any_full := {anyf}; h_bal := {core.coq_bool(m in bal)} |}}")
-                engines = core.coq_list([f"{{| e_rated := {core.coq_q(Fraction(r))}; e_on := true |}}" for r in o["eng_rated"]])
-                parts.append(f"machine_ok p{j} {hin} {engines} {scale} {core.coq_fl(o['elec'][t])} {core.coq_fl(o['shaft'][t])} "
-                             f"{core.coq_fl_list([e[t] for e in o['engines']])}")
+            # per step one let-block, so that every value is computed once: set-point machines first -- what the LAST electric
+            # pass reads of them (ebal) is part of the net load the load-sharing machines and the sources share
+            lets_t, checks = [], []
+            netv = f"n{t}"
+            terms = [core.coq_q(cons)]
+            for j, m in enumerate(inp["machines"]):
                 if m not in bal:
-                    net += f" + ebal p{j} {hin}"
-            parts.append(f"sources_ok_cap {core.coq_q_list(on_rated)} {core.coq_q(cap)} ({net}) {scale} "
-                         f"{core.coq_fl_list([s_[t] for k_, s_ in enumerate(obs['sources']) if k_ not in off])}")
+                    lets_t.append(f"let h{j} := {{| h_e0 := {core.coq_q(m['e0'][t])}; h_load := {core.coq_q(m['load'][t])}; "
+                                  f"h_full := {core.coq_bool(m['full'][t])}; h_any_full := {anyf}; h_bal := false |}} in")
+                    terms.append(f"ebal p{j} h{j}")
+            lets_t.append(f"let {netv} := Qred (dy ({' + '.join(terms)})) in")
+            for j, m in enumerate(inp["machines"]):
+                if m in bal:
+                    lets_t.append(f"let h{j} := {{| h_e0 := Qred (dy (- {core.coq_q(defs[m['name']]['rated'])} * ({netv} / {core.coq_q(cap)}))); "
+                                  f"h_load := {core.coq_q(m['load'][t])}; h_full := {core.coq_bool(m['full'][t])}; h_any_full := {anyf}; h_bal := true |}} in")
+            for j, (m, o) in enumerate(zip(inp["machines"], obs["machines"])):
+                engines = core.coq_list([f"{{| e_rated := {core.coq_q(Fraction(r))}; e_on := true |}}" for r in o["eng_rated"]])
+                checks.append(f"machine_ok p{j} h{j} {engines} {scale} {core.coq_fl(o['elec'][t])} {core.coq_fl(o['shaft'][t])} "
+                              f"{core.coq_fl_list([e[t] for e in o['engines']])}")
+            checks.append(f"sources_ok_cap {core.coq_q_list(on_rated)} {core.coq_q(cap)} {netv} {scale} "
+                          f"{core.coq_fl_list([s_[t] for k_, s_ in enumerate(obs['sources']) if k_ not in off])}")
             if off:          # sources that are switched off deliver nothing
-                parts.append(f"sources_ok_cap {core.coq_q_list([Fraction(obs['src_rated'][k_]) for k_ in sorted(off)])} 1 0 {scale} "
-                             f"{core.coq_fl_list([obs['sources'][k_][t] for k_ in sorted(off)])}")
+                checks.append(f"sources_ok_cap {core.coq_q_list([Fraction(obs['src_rated'][k_]) for k_ in sorted(off)])} 1 0 {scale} "
+                              f"{core.coq_fl_list([obs['sources'][k_][t] for k_ in sorted(off)])}")
+            parts.append("(" + " ".join(lets_t) + " (" + " && ".join(checks) + ")%bool)")
 
     def oracle(self, case, obs):
         if obs.get("rejected"):
